@@ -1,0 +1,42 @@
+//! Wrapper around the crate-private `ReconnectState` (socket/core/state.rs) so that the
+//! verification harness can drive the real back-off arithmetic (property C17).
+use crate::socket::core::state::ReconnectState;
+use std::time::{Duration, Instant};
+
+pub struct VReconnectState(ReconnectState);
+
+impl VReconnectState {
+  /// A state that has already seen `attempts` consecutive failures.
+  pub fn new(attempts: u32) -> Self {
+    Self(ReconnectState {
+      current_attempts: attempts,
+      next_attempt_at: None,
+    })
+  }
+  /// `ReconnectState::default()`
+  pub fn fresh() -> Self {
+    Self(ReconnectState::default())
+  }
+  pub fn on_connection_failure(&mut self, base_ivl: Duration, max_ivl: Duration) -> Duration {
+    self.0.on_connection_failure(base_ivl, max_ivl)
+  }
+  pub fn on_connection_success(&mut self) {
+    self.0.on_connection_success()
+  }
+  pub fn attempts(&self) -> u32 {
+    self.0.current_attempts
+  }
+  pub fn next_attempt_at(&self) -> Option<Instant> {
+    self.0.next_attempt_at
+  }
+  pub fn has_next_attempt(&self) -> bool {
+    self.0.next_attempt_at.is_some()
+  }
+  /// `next_attempt_at - since` (None when nothing is scheduled or the deadline is before `since`).
+  pub fn next_attempt_after(&self, since: Instant) -> Option<Duration> {
+    self.0.next_attempt_at.and_then(|t| t.checked_duration_since(since))
+  }
+  pub fn is_due(&self, now: Instant) -> bool {
+    self.0.is_due(now)
+  }
+}
